@@ -78,8 +78,8 @@ func newScenario(seed int64, maxDur time.Duration, st *stats) (*scenario, error)
 
 	prof := FaultProfile{MaxLatency: 3 * time.Millisecond, Slow: 1200 * time.Millisecond}
 	longSlow := false
-	switch r.Intn(5) {
-	case 4:
+	switch r.Intn(6) {
+	case 4, 5:
 		// heartbeat answers that arrive after the library's own 1 s time-out while the term goes on
 		prof.SlowUpdate = 250
 		longSlow = true
